@@ -351,7 +351,8 @@ fn uses_param(def: &Def, p: &str) -> bool {
 fn assign_valid_indices(g: &mut Gen, def: &mut Def, use_discr: bool) {
 	let Body::Enum { variants } = &mut def.body else { return };
 	let has_data = variants.iter().any(|v| !v.fields.is_empty());
-	let discr_ok = use_discr && (!has_data);
+	// (with data-carrying variants explicit discriminants need a primitive repr, which the caller adds)
+	let discr_ok = use_discr && (!has_data || g.bool());
 	// Rust-level discriminants must be distinct too (skipped variants included)
 	let mut used_codec: Vec<u32> = vec![];
 	let mut used_rust: Vec<i64> = vec![];
